@@ -25,8 +25,9 @@ def r1(ctx, rep):
     rep.rule("C05.R1", "the result has one column per frame column (arity by construction)", floor=3)
     syn = ctx.syn
     ps = syn.fn("Lowerer::push_select", crate="prqlc")
-    un = [n for n in walk(ps["body"]) if n.get("k") == "local" and show(n["pat"]) == "(cols, cids)"]
-    rep.check(bool(un) and show(un[0]["init"]) == "columns.into_iter().unzip()", "unzip", "the declared columns and the selected ids must come from one list", file=ps["file"], line=ps["l"], fn=ps["path"])
+    un = [n for n in walk(ps["body"]) if n.get("k") == "local" and n["pat"].get("k") == "p_tuple" and len(n["pat"]["e"]) == 2
+          and n.get("init", {}).get("k") == "mcall" and n["init"]["m"] == "unzip"]
+    rep.check(len(un) == 1 and show(un[0]["init"]) == "columns.into_iter().unzip()", "unzip", "the declared columns and the selected ids must come from one list", file=ps["file"], line=ps["l"], fn=ps["path"])
     # every frame column contributes exactly one push in the Single arm
     single = None
     for m in matches_of(ps["body"]):
@@ -86,11 +87,20 @@ def r3(ctx, rep):
     rep.rule("C05.R3", "unrequested columns of the atomic SELECT are cut off by a limiting SELECT", floor=2)
     syn = ctx.syn
     f = syn.fn("anchor::extract_atomic", crate="prqlc")
+    import alpha
+    import re
+    A0, A1 = alpha.Inliner(f, max_inline=0), alpha.Inliner(f, max_inline=1)
     ok = False
     for n in walk(f["body"]):
-        if n.get("k") == "if" and show(n["c"], maxdepth=10) == "select_cols.iter().any(|c| !output.contains(c))":
-            t = show_stmts(n["t"], maxdepth=10)
-            ok = "let limited_view = vec!(SqlTransform::Super(Transform::Select(output)))" in t and "return anchor_split(ctx, atomic, limited_view)" in t
+        # (closure parameters numbered, the limiting view inlined one level: local names are free)
+        if n.get("k") != "if":
+            continue
+        m = re.fullmatch(r"(\w+)\.iter\(\)\.any\(\|_c0\| !(\w+)\.contains\(_c0\)\)", A0.show(n["c"]))
+        if m:
+            out = m.group(2)
+            rets = [A1.show(r.get("e")) for r in walk(n["t"]) if r.get("k") == "return"]
+            # the limiting view is a Select of exactly the requested output (the same variable the test looked at)
+            ok = len(rets) == 1 and re.fullmatch(r"anchor_split\(ctx, \w+, vec!\(SqlTransform::Super\(Transform::Select\(" + out + r"\)\)\)\)", rets[0]) is not None
     rep.check(ok, "limiting-select", "when the atomic SELECT contains a column that is not in the requested output, a second SELECT of exactly the output must follow", file=f["file"], line=f["l"], fn=f["path"])
     rep.check(show(tail_expr(f["body"])) == "atomic", "otherwise-unchanged", "otherwise the atomic pipeline is returned as is", file=f["file"], line=f["l"], fn=f["path"])
 
@@ -116,18 +126,33 @@ def r5(ctx, rep):
     rep.rule("C05.R5", "a column whose SQL name differs from the expected name is aliased", floor=3)
     syn = ctx.syn
     f = syn.fn("gen_expr::translate_select_item", crate="prqlc")
+    import alpha
+    A = alpha.Inliner(f, max_inline=1)
     ok = False
+    cond_ok = False
     for n in f["body"]["s"]:
-        if n.get("k") == "if" and show(n["c"]) == "(inferred_name != expected)":
-            t = show_stmts(n["t"], maxdepth=10)
-            ok = "return Ok(SelectItem::ExprWithAlias{alias: translate_ident_part(ident, ctx), expr: expr})" in t and "ctx.anchor.column_names.insert(cid, ident.to_string())" in t
-    rep.check(ok, "alias-when-different", "when the name SQL would infer differs from the expected column name the item must be emitted `AS <expected>`", file=f["file"], line=f["l"], fn=f["path"])
-    rep.check(show(tail_expr(f["body"])) == "Ok(SelectItem::UnnamedExpr(expr))", "bare-when-equal", "otherwise the expression is emitted bare", file=f["file"], line=f["l"], fn=f["path"])
-    exp = [n for n in f["body"]["s"] if n.get("k") == "local" and show(n["pat"]) == "expected"]
-    rep.check(bool(exp) and show(exp[0]["init"]) == "ctx.anchor.column_names.get(&cid)", "expected-name", "the expected name is the registered column name of that id", file=f["file"], line=f["l"], fn=f["path"])
-    inf = [n for n in f["body"]["s"] if n.get("k") == "local" and show(n["pat"]) == "inferred_name"]
-    ok = bool(inf) and "CompoundIdentifier" in " ".join(x["p"] for x in walk(inf[0]["init"]) if x.get("k") in ("p_ts", "p_path")) and any(x.get("k") == "mcall" and x["m"] == "last" and show(x["r"]) == "parts" for x in walk(inf[0]["init"]))
-    rep.check(ok, "inferred-name", "the inferred name is the last part of a plain column reference (nothing for expressions)", file=f["file"], line=f["l"], fn=f["path"])
+        # `if <inferred> != <expected>` with both sides inlined: expected = the registered name of the id, inferred = last part of a plain column reference
+        if n.get("k") == "if" and n["c"].get("k") in ("bin", "paren"):
+            c = n["c"]["e"] if n["c"].get("k") == "paren" else n["c"]
+            if c.get("k") != "bin" or c["op"] != "!=":
+                continue
+            def resolved(e):
+                if e.get("k") == "path" and "::" not in e["p"]:
+                    i = A._init_of(e, e["p"])
+                    return i if i is not None else e
+                return e
+            nodes = [resolved(c["lhs"]), resolved(c["rhs"])]
+            exp = [x for x in nodes if show(x) == "ctx.anchor.column_names.get(&cid)"]
+            inf = [x for x in nodes if any(y.get("k") in ("p_ts", "p_path", "path") and "CompoundIdentifier" in y.get("p", "") for y in walk(x))
+                   and any(y.get("k") == "mcall" and y["m"] == "last" for y in walk(x))]
+            cond_ok = len(exp) == 1 and len(inf) == 1
+            rets = [A.show(r.get("e")).replace(" ", "") for r in walk(n["t"]) if r.get("k") == "return"]
+            ins = [A.show(x).replace(" ", "") for x in walk(n["t"]) if x.get("k") == "mcall" and x["m"] == "insert" and show(x["r"]).endswith("column_names")]
+            ok = cond_ok and len(rets) == 1 and rets[0].startswith("Ok(SelectItem::ExprWithAlias{alias:translate_ident_part(") and bool(ins) and ins[0].startswith("ctx.anchor.column_names.insert(cid,")
+    rep.check(ok, "alias-when-different", "when the name SQL would infer differs from the expected column name the item must be emitted `AS <expected>` and the name registered", file=f["file"], line=f["l"], fn=f["path"])
+    rep.check(A.show(tail_expr(f["body"])).startswith("Ok(SelectItem::UnnamedExpr("), "bare-when-equal", "otherwise the expression is emitted bare", file=f["file"], line=f["l"], fn=f["path"])
+    rep.check(cond_ok, "expected-name", "the test must compare the registered column name of the id (`ctx.anchor.column_names.get(&cid)`) with the name SQL infers "
+              "(the last part of a plain column reference, nothing for expressions)", file=f["file"], line=f["l"], fn=f["path"])
 
 
 def r6(ctx, rep):
